@@ -84,6 +84,8 @@ pub struct Exec {
     link_of_handle: HashMap<(u16, u32), String>,
     pending_attach: Vec<String>,
     msg_shapes: HashMap<u32, (usize, String)>,
+    /// script label of a link -> its AMQP link name
+    names: HashMap<String, String>,
 }
 
 fn class_of(dbg: &str) -> String {
@@ -135,7 +137,7 @@ impl Exec {
         Exec { log: vec![], t0: tokio::time::Instant::now(), side_listener: listener, peer: None, buf: vec![], eof_logged: false, sh: Shifts::default(), conn: None, sessions: HashMap::new(),
                senders: HashMap::new(), receivers: HashMap::new(), held: HashMap::new(), futs: HashMap::new(), calls: vec![], next_call: 1, roles: HashMap::new(),
                pending_begins: vec![], eut_channel: HashMap::new(), eut_dids: HashMap::new(), eut_frames: HashMap::new(), eut_noi: HashMap::new(),
-               out_progress: HashMap::new(), sent_queue: HashMap::new(), link_of_handle: HashMap::new(), pending_attach: vec![], msg_shapes: HashMap::new() }
+               out_progress: HashMap::new(), sent_queue: HashMap::new(), link_of_handle: HashMap::new(), pending_attach: vec![], msg_shapes: HashMap::new(), names: HashMap::new() }
     }
     fn t(&self) -> u64 { tokio::time::Instant::now().duration_since(self.t0).as_millis() as u64 }
     fn emit(&mut self, mut j: J) {
@@ -241,8 +243,8 @@ impl Exec {
             if self.calls[i].h.is_finished() {
                 let c = self.calls.remove(i);
                 match c.h.await {
-                    Ok((res, back)) => { self.put_back(back); self.emit(json!({"ev": "ApiRet", "call": c.id, "op": c.op, "scope": c.scope, "res": res})); }
-                    Err(e) => { let p = e.is_panic(); self.emit(json!({"ev": "ApiRet", "call": c.id, "op": c.op, "scope": c.scope, "res": {"ok": false, "class": if p { "PANIC" } else { "Cancelled" }, "cond": "", "dbg": ""}})); }
+                    Ok((res, back)) => { self.put_back(back); let lname = c.scope.strip_prefix("l:").map(|l| self.names.get(l).cloned().unwrap_or(l.to_string())).unwrap_or_default(); self.emit(json!({"ev": "ApiRet", "call": c.id, "op": c.op, "scope": c.scope, "lname": lname, "res": res})); }
+                    Err(e) => { let p = e.is_panic(); self.emit(json!({"ev": "ApiRet", "call": c.id, "op": c.op, "scope": c.scope, "lname": "", "res": {"ok": false, "class": if p { "PANIC" } else { "Cancelled" }, "cond": "", "dbg": ""}})); }
                 }
             } else { i += 1; }
         }
@@ -279,7 +281,8 @@ impl Exec {
     fn start(&mut self, op: &str, scope: &str, args: J, cancel: Option<oneshot::Sender<()>>, h: JoinHandle<(J, Back)>) {
         let id = self.next_call;
         self.next_call += 1;
-        self.emit(json!({"ev": "ApiCall", "call": id, "op": op, "scope": scope, "args": args}));
+        let lname = scope.strip_prefix("l:").map(|l| self.names.get(l).cloned().unwrap_or(l.to_string())).unwrap_or_default();
+        self.emit(json!({"ev": "ApiCall", "call": id, "op": op, "scope": scope, "lname": lname, "args": args}));
         self.calls.push(Call { id, op: op.to_string(), scope: scope.to_string(), h, cancel });
     }
 
@@ -379,6 +382,7 @@ impl Exec {
                 let cfg = e["cfg"].clone();
                 let Some(sess) = self.sessions.remove(&s) else { return self.skip(e, "no session handle"); };
                 let name = cfg.get("name").and_then(|x| x.as_str()).unwrap_or(&l).to_string();
+                self.names.insert(l.clone(), name.clone());
                 let snd = match cfg.get("snd").and_then(|x| x.as_i64()).unwrap_or(2) { 0 => SenderSettleMode::Unsettled, 1 => SenderSettleMode::Settled, _ => SenderSettleMode::Mixed };
                 let rcv = if cfg.get("rcv").and_then(|x| x.as_i64()).unwrap_or(0) == 1 { ReceiverSettleMode::Second } else { ReceiverSettleMode::First };
                 let (ln, sn) = (l.clone(), s.clone());
